@@ -412,7 +412,7 @@ theorem onDisk_commit {db db' : Db} {hs : List Hash}
 
 theorem commit_ok {hashOf : CNode → Hash} {db db' : Db} {root : Hash} (hOk : DbOk hashOf db)
     (hS : Sound hashOf db.node) (h : db.commit root = .ok db') :
-    DbOk hashOf db' ∧ (inMem db root → onDisk db' root) := by
+    DbOk hashOf db' ∧ (inMem db root → onDisk db' root) ∧ (∀ x, onDisk db x → onDisk db' x) := by
   obtain ⟨hs, hr, h1, h2⟩ := commit_eq h
   obtain ⟨r1, r2, r3⟩ := reach_spec db.mem _ root hs hr
   have hfil : ∀ x, lookupH db'.mem x = if decide (x ∉ hs) then lookupH db.mem x else none := by
@@ -425,7 +425,8 @@ theorem commit_ok {hashOf : CNode → Hash} {db db' : Db} {root : Hash} (hOk : D
     · simp only [hx, not_false_eq_true, decide_true, if_true] at hm
       exact ⟨hm, hx⟩
   have hd := onDisk_commit h2
-  refine ⟨⟨fun x m hm y hy => ?_, fun x m hm y hy => ?_, fun x c hc y hy => ?_, fun x c hc => ?_⟩, fun hin => ?_⟩
+  refine ⟨⟨fun x m hm y hy => ?_, fun x m hm y hy => ?_, fun x c hc y hy => ?_, fun x c hc => ?_⟩, fun hin => ?_,
+    fun x hx => (hd x).mpr (Or.inr hx)⟩
   · obtain ⟨g1, _⟩ := hmem' x m hm
     rcases hOk.refs x m g1 y hy with g | g
     · exact Or.inl g
@@ -704,5 +705,308 @@ theorem insertAll_ok {hashOf : CNode → Hash} (hinj : ∀ a b, hashOf a = hashO
       | none => exact absurd hn hx
       | some c => rw [a1 x c hn]; simp
     · rw [hx, a3]; simp
+
+/-! #### the hasher writes children before parents -/
+
+theorem presentR_flatMap {ι : Type} (f : ι → List (Hash × CNode)) (P : Hash → Prop) : ∀ (l : List ι),
+    (∀ i, i ∈ l → PresentR P (f i)) → PresentR P (l.flatMap f) := by
+  intro l
+  induction l with
+  | nil => intro _; trivial
+  | cons i l ih =>
+    intro h
+    rw [List.flatMap_cons]
+    exact presentR_append _ _ P (h i List.mem_cons_self)
+      (presentR_mono _ _ _ (fun x hx => Or.inl hx) (ih (fun j hj => h j (List.mem_cons_of_mem _ hj))))
+
+theorem presentR_storeWrite (hx : Hasher) (X : CNode) (o : Option Hash) (force : Bool) (Q : Hash → Prop)
+    (h : hx.commit = true → ∀ x, x ∈ directRefs X → Q x) : PresentR Q (storeWrite hx X o force) := by
+  unfold storeWrite
+  by_cases hc : hx.commit = true
+  · simp only [hc, Bool.not_true, Bool.false_eq_true, if_false]
+    cases X with
+    | empty => trivial
+    | hash x => trivial
+    | value v =>
+      by_cases hsm : (hx.small (CNode.value v) && !force) = true
+      · simp only [hsm, if_true]; trivial
+      · simp only [hsm]; exact ⟨h hc, trivial⟩
+    | short K c =>
+      by_cases hsm : (hx.small (CNode.short K c) && !force) = true
+      · simp only [hsm, if_true]; trivial
+      · simp only [hsm]; exact ⟨h hc, trivial⟩
+    | full ch =>
+      by_cases hsm : (hx.small (CNode.full ch) && !force) = true
+      · simp only [hsm, if_true]; trivial
+      · simp only [hsm]; exact ⟨h hc, trivial⟩
+  · simp [hc, PresentR]
+
+section present
+variable (hs hx : Hasher)
+
+theorem writes_present {s : Store} {top : Bool} {p : PNode} {n : Node} (hI : Inv hs s top p n) :
+    Placed n → (∀ v, n ≠ .value v) → ∀ P : Hash → Prop, (∀ x, s x ≠ none → P x) →
+    PresentR P (writes hx p top) ∧
+    (hx.commit = true → ∀ h, hashed hx p top = .hash h → P h ∨ h ∈ (writes hx p top).map (·.1)) := by
+  induction hI with
+  | empty top => intro _ _ P _; exact ⟨trivial, fun _ h hh => by simp [hashed] at hh⟩
+  | value top v => intro _ hv; exact absurd rfl (hv v)
+  | hash top h n hb hr hst hcl =>
+    intro _ _ P hP
+    refine ⟨trivial, fun _ h' hh => Or.inl (hP _ ?_)⟩
+    simp only [hashed, CNode.hash.injEq] at hh
+    rw [← hh, hst]; simp
+  | short top K c n f hIc hF ih =>
+    intro hPl _ P hP
+    cases hcd : cacheDecision hx f with
+    | some hu =>
+      obtain ⟨h, u⟩ := hu
+      obtain ⟨hfh, _, hclean⟩ := cd_some hx hcd
+      refine ⟨by simp [writes, hcd, PresentR], fun hc h' hh => Or.inl (hP _ ?_)⟩
+      rw [hashed_short_some hx top hcd] at hh
+      simp only [CNode.hash.injEq] at hh
+      rw [← hh, ((hF.1 h hfh).2 (hclean hc)).1]; simp
+    | none =>
+      rw [writes_short_none hx top hcd]
+      have hch : PresentR P (pWrites hx c) ∧
+          (hx.commit = true → ∀ x, pRef hx c = .hash x → P x ∨ x ∈ (pWrites hx c).map (·.1)) := by
+        cases hIc with
+        | empty => exact absurd rfl hPl.1
+        | value _ v => exact ⟨trivial, fun _ x hx' => by simp [pRef] at hx'⟩
+        | hash _ h' _ hb' hr' hst' hcl' =>
+          exact ih hPl.2 (by intro v hv; rw [hv] at hb'; simp [Node.isBranch] at hb') P hP
+        | short _ K' c' n' f' h1 h2 => exact ih hPl.2 (by intro v hv; cases hv) P hP
+        | full _ ch0 ch0' f' h1 h2 => exact ih hPl.2 (by intro v hv; cases hv) P hP
+      refine ⟨presentR_append _ _ P hch.1 (presentR_storeWrite hx _ _ _ _ (fun hc x hx' => ?_)), fun hc h hh => ?_⟩
+      · rw [kids_short] at hx'
+        cases hr : pRef hx c with
+        | hash y =>
+          rw [hr] at hx'
+          simp only [directRefs, List.mem_singleton] at hx'
+          subst hx'
+          exact hch.2 hc x hr
+        | empty => rw [hr] at hx'; simp [directRefs] at hx'
+        | value v => rw [hr] at hx'; simp [directRefs] at hx'
+        | short K2 c2 => rw [hr] at hx'; simp [directRefs] at hx'
+        | full ch2 => rw [hr] at hx'; simp [directRefs] at hx'
+      · right
+        rw [hashed_short_none hx top hcd] at hh
+        have := storeWrite_of_hash hx _ (by rw [kids_short]; rfl) _ _ hc hh
+        rw [this]; simp
+  | full top ch ch' f hIc hF ih =>
+    intro hPl _ P hP
+    cases hcd : cacheDecision hx f with
+    | some hu =>
+      obtain ⟨h, u⟩ := hu
+      obtain ⟨hfh, _, hclean⟩ := cd_some hx hcd
+      refine ⟨by simp [writes, hcd, PresentR], fun hc h' hh => Or.inl (hP _ ?_)⟩
+      rw [hashed_full_some hx top hcd] at hh
+      simp only [CNode.hash.injEq] at hh
+      rw [← hh, ((hF.1 h hfh).2 (hclean hc)).1]; simp
+    | none =>
+      rw [writes_full_none hx top hcd]
+      have hch : ∀ i, i ≠ 16 → PresentR P (writes hx (ch i) false) ∧
+          (hx.commit = true → ∀ x, hashed hx (ch i) false = .hash x →
+            P x ∨ x ∈ (writes hx (ch i) false).map (·.1)) :=
+        fun i hi => ih i (hPl.2.2 i) (hPl.1 i hi) P hP
+      refine ⟨presentR_append _ _ P (presentR_flatMap _ P _ (fun i _ => ?_))
+        (presentR_storeWrite hx _ _ _ _ (fun hc x hx' => ?_)), fun hc h hh => ?_⟩
+      · by_cases hi : i = 16
+        · simp [hi, PresentR]
+        · simp only [hi, if_false]; exact (hch i hi).1
+      · rw [kids_full] at hx'
+        simp only [directRefs, List.mem_filterMap, List.mem_finRange, true_and] at hx'
+        obtain ⟨i, hi⟩ := hx'
+        by_cases h16 : i = 16
+        · simp [h16] at hi
+        · simp only [h16, if_false] at hi
+          cases hr : hashed hx (ch i) false with
+          | hash y =>
+            rw [hr] at hi
+            simp only [Option.some.injEq] at hi
+            subst hi
+            rcases (hch i h16).2 hc y hr with g | g
+            · exact Or.inl g
+            · right
+              simp only [List.map_flatMap, List.mem_flatMap, List.mem_finRange, true_and]
+              exact ⟨i, by simp only [h16, if_false]; exact g⟩
+          | empty => rw [hr] at hi; simp at hi
+          | value v => rw [hr] at hi; simp at hi
+          | short K2 c2 => rw [hr] at hi; simp at hi
+          | full ch2 => rw [hr] at hi; simp at hi
+      · right
+        rw [hashed_full_none hx top hcd] at hh
+        have := storeWrite_of_hash hx _ (by rw [kids_full]; rfl) _ _ hc hh
+        rw [this]; simp
+
+end present
+
+/-! #### from the closed reference graph on disk to the closed store of the trie invariant -/
+
+/-- no hash reference anywhere inside a collapsed node -/
+def noHashC : CNode → Prop
+  | .hash _ => False
+  | .short _ c => noHashC c
+  | .full ch => ∀ i, noHashC (ch i)
+  | _ => True
+
+section graph
+variable (hs : Hasher) (hsmall : ∀ c, hs.small c = true → noHashC c)
+
+/-- the reference of a child is either a hash or the embedded (small) collapsed child -/
+theorem refC_cases (m : Node) (hb : Node.isBranch m = true) :
+    (∃ x, refC hs m false = .hash x) ∨ (refC hs m false = refKids hs m ∧ hs.small (refKids hs m) = true) := by
+  rw [refC_branch hs m hb, storeRef_branch hs _ (refKids_isBranch hs m hb)]
+  by_cases hc : (hs.small (refKids hs m) && !false) = true
+  · rw [if_pos hc]; exact Or.inr ⟨rfl, by simpa using hc⟩
+  · rw [if_neg hc]; exact Or.inl ⟨_, rfl⟩
+
+theorem closed_of_noHash (s : Store) (m : Node) : Placed m → noHashC (refKids hs m) → Closed hs s m := by
+  induction m with
+  | empty => intro _ _; trivial
+  | value v => intro _ _; trivial
+  | short K c ih =>
+    intro hP hn
+    rw [refKids_short] at hn
+    rw [closed_short]
+    cases c with
+    | value v => exact ⟨trivial, trivial⟩
+    | empty => exact absurd rfl hP.1
+    | short K' c' =>
+      have hn' : noHashC (refC hs (.short K' c') false) := hn
+      rcases refC_cases hs (.short K' c') rfl with ⟨x, hx⟩ | ⟨h1, _⟩
+      · rw [hx] at hn'; exact absurd hn' id
+      · refine ⟨fun h hh => ?_, ih hP.2 (by rw [← h1]; exact hn')⟩
+        rw [hh] at hn'; exact absurd hn' id
+    | full ch' =>
+      have hn' : noHashC (refC hs (.full ch') false) := hn
+      rcases refC_cases hs (.full ch') rfl with ⟨x, hx⟩ | ⟨h1, _⟩
+      · rw [hx] at hn'; exact absurd hn' id
+      · refine ⟨fun h hh => ?_, ih hP.2 (by rw [← h1]; exact hn')⟩
+        rw [hh] at hn'; exact absurd hn' id
+  | full ch ih =>
+    intro hP hn i
+    rw [refKids_full] at hn
+    by_cases hi : i = 16
+    · subst hi
+      refine ⟨fun h => absurd rfl h, ?_⟩
+      rcases hP.2.1 with h | ⟨v, h⟩ <;> rw [h] <;> trivial
+    · have hn' : noHashC (refC hs (ch i) false) := by
+        have := hn i; simpa [hi] using this
+      refine ⟨fun _ h hh => ?_, ?_⟩
+      · rw [hh] at hn'; exact absurd hn' id
+      · cases hc : ch i with
+        | empty => trivial
+        | value v => trivial
+        | short K' c' =>
+          rw [hc] at hn'
+          rcases refC_cases hs (.short K' c') rfl with ⟨x, hx⟩ | ⟨h1, _⟩
+          · rw [hx] at hn'; exact absurd hn' id
+          · have := ih i (hP.2.2 i)
+            rw [hc] at this
+            exact this (by rw [← h1]; exact hn')
+        | full ch' =>
+          rw [hc] at hn'
+          rcases refC_cases hs (.full ch') rfl with ⟨x, hx⟩ | ⟨h1, _⟩
+          · rw [hx] at hn'; exact absurd hn' id
+          · have := ih i (hP.2.2 i)
+            rw [hc] at this
+            exact this (by rw [← h1]; exact hn')
+
+include hsmall
+
+/-- a store `d` (the disk) below a store `U` (pool + disk) that is closed for `n`: if `d` is closed under
+    direct hash children and holds the root of `n`, it is closed for `n` -/
+theorem closed_of_graph (d U : Store) (hle : Store.le d U)
+    (hg : ∀ h c, d h = some c → ∀ x, x ∈ directRefs c → d x ≠ none) (n : Node) :
+    ∀ (top : Bool) (h : Hash), Node.isBranch n = true → Placed n → refC hs n top = .hash h → d h ≠ none →
+    Stored hs U top n → Closed hs U n → d h = some (refKids hs n) ∧ Closed hs d n := by
+  induction n with
+  | empty => intro top h hb; simp [Node.isBranch] at hb
+  | value v => intro top h hb; simp [Node.isBranch] at hb
+  | short K c ih =>
+    intro top h _ hP hr hd hSt hCl
+    have hdh : d h = some (refKids hs (.short K c)) := by
+      cases hc : d h with
+      | none => exact absurd hc hd
+      | some c' =>
+        have := hle _ _ hc
+        rw [hSt h hr] at this
+        rw [this]
+    refine ⟨hdh, ?_⟩
+    rw [closed_short] at hCl ⊢
+    cases c with
+    | value v => exact ⟨trivial, trivial⟩
+    | empty => exact absurd rfl hP.1
+    | short K' c' =>
+      rcases refC_cases hs (.short K' c') rfl with ⟨x, hx⟩ | ⟨h1, h2⟩
+      · have hxin : x ∈ directRefs (refKids hs (.short K (.short K' c'))) := by
+          rw [refKids_short]
+          show x ∈ directRefs (.short K (refC hs (.short K' c') false))
+          rw [hx]; simp [directRefs]
+        obtain ⟨g1, g2⟩ := ih false x rfl hP.2 hx (hg _ _ hdh x hxin) hCl.1 hCl.2
+        refine ⟨fun h' hh => ?_, g2⟩
+        rw [hx] at hh; simp only [CNode.hash.injEq] at hh; rw [← hh]; exact g1
+      · refine ⟨fun h' hh => ?_, closed_of_noHash hs d _ hP.2 (hsmall _ h2)⟩
+        rw [h1] at hh; rw [refKids_short] at hh; cases hh
+    | full ch' =>
+      rcases refC_cases hs (.full ch') rfl with ⟨x, hx⟩ | ⟨h1, h2⟩
+      · have hxin : x ∈ directRefs (refKids hs (.short K (.full ch'))) := by
+          rw [refKids_short]
+          show x ∈ directRefs (.short K (refC hs (.full ch') false))
+          rw [hx]; simp [directRefs]
+        obtain ⟨g1, g2⟩ := ih false x rfl hP.2 hx (hg _ _ hdh x hxin) hCl.1 hCl.2
+        refine ⟨fun h' hh => ?_, g2⟩
+        rw [hx] at hh; simp only [CNode.hash.injEq] at hh; rw [← hh]; exact g1
+      · refine ⟨fun h' hh => ?_, closed_of_noHash hs d _ hP.2 (hsmall _ h2)⟩
+        rw [h1] at hh; rw [refKids_full] at hh; cases hh
+  | full ch ih =>
+    intro top h _ hP hr hd hSt hCl
+    have hdh : d h = some (refKids hs (.full ch)) := by
+      cases hc : d h with
+      | none => exact absurd hc hd
+      | some c' =>
+        have := hle _ _ hc
+        rw [hSt h hr] at this
+        rw [this]
+    refine ⟨hdh, fun i => ?_⟩
+    by_cases hi : i = 16
+    · subst hi
+      refine ⟨fun h => absurd rfl h, ?_⟩
+      rcases hP.2.1 with h | ⟨v, h⟩ <;> rw [h] <;> trivial
+    · have hci := hCl i
+      cases hc : ch i with
+      | empty => exact ⟨fun _ h' hh => by simp [refC] at hh, trivial⟩
+      | value v => exact absurd hc (hP.1 i hi v)
+      | short K' c' =>
+        have hbr : Node.isBranch (ch i) = true := by rw [hc]; rfl
+        rcases refC_cases hs (ch i) hbr with ⟨x, hx⟩ | ⟨h1, h2⟩
+        · have hxin : x ∈ directRefs (refKids hs (.full ch)) := by
+            rw [refKids_full]
+            simp only [directRefs, List.mem_filterMap, List.mem_finRange, true_and]
+            exact ⟨i, by simp [hi, hx]⟩
+          obtain ⟨g1, g2⟩ := ih i false x hbr (hP.2.2 i) hx (hg _ _ hdh x hxin) (hci.1 hi) hci.2
+          rw [← hc]
+          refine ⟨fun _ h' hh => ?_, g2⟩
+          rw [hx] at hh; simp only [CNode.hash.injEq] at hh; rw [← hh]; exact g1
+        · rw [← hc]
+          refine ⟨fun _ h' hh => ?_, closed_of_noHash hs d _ (hP.2.2 i) (hsmall _ h2)⟩
+          rw [h1, hc, refKids_short] at hh; cases hh
+      | full ch' =>
+        have hbr : Node.isBranch (ch i) = true := by rw [hc]; rfl
+        rcases refC_cases hs (ch i) hbr with ⟨x, hx⟩ | ⟨h1, h2⟩
+        · have hxin : x ∈ directRefs (refKids hs (.full ch)) := by
+            rw [refKids_full]
+            simp only [directRefs, List.mem_filterMap, List.mem_finRange, true_and]
+            exact ⟨i, by simp [hi, hx]⟩
+          obtain ⟨g1, g2⟩ := ih i false x hbr (hP.2.2 i) hx (hg _ _ hdh x hxin) (hci.1 hi) hci.2
+          rw [← hc]
+          refine ⟨fun _ h' hh => ?_, g2⟩
+          rw [hx] at hh; simp only [CNode.hash.injEq] at hh; rw [← hh]; exact g1
+        · rw [← hc]
+          refine ⟨fun _ h' hh => ?_, closed_of_noHash hs d _ (hP.2.2 i) (hsmall _ h2)⟩
+          rw [h1, hc, refKids_full] at hh; cases hh
+
+end graph
 
 end LemoProofs.MptDbLemmas
